@@ -2,7 +2,7 @@
 import json, os
 
 from . import extract
-from .rules import lock7, seq, mutex, ptr, lockword, qsbr, enc, exc, acc, cfgdiff, enum1, iterrules, prefix, point, find, slot, nodes, couple
+from .rules import lock7, seq, mutex, ptr, lockword, qsbr, enc, exc, acc, cfgdiff, enum1, iterrules, prefix, point, find, slot, nodes, couple, qstate
 from . import olcrules
 
 VERIF = os.path.dirname(os.path.dirname(os.path.abspath(__file__)))
@@ -240,12 +240,12 @@ PROPERTIES['C04'] = {
     'level': 'other',
     'configs': two,
     'rules': [olc('LOCK-1'), olc('LOCK-5'), R(olcrules.lock6), R(olcrules.lock6b),
-              R(qsbr.q_free_paths), R(qsbr.q_rotation), R(qsbr.q_barriers), R(lambda cfg: qsbr.q_orphans(cfg, parts=('7', '9'))), R(qsbr.q_tagging), R(qsbr.q_last_out), R(qsbr.q_register_epoch), R(qsbr.q_wrap),
+              R(qsbr.q_free_paths), R(qsbr.q_rotation), R(qsbr.q_barriers), R(lambda cfg: qsbr.q_orphans(cfg, parts=('7', '9'))), R(qsbr.q_tagging), R(qsbr.q_last_out), R(qsbr.q_register_epoch), R(qsbr.q_wrap), R(qstate.qs1),
               R(lambda cfg: qsbr.q_rotation(cfg, parts=('3',))), R(qsbr.q_cas), R(lambda cfg: qsbr.q_orphans(cfg, parts=('8',))), R(qsbr.q_tail_link), R(qsbr.q_sink), R(ptr.ptr3), R(point.lock11), olc_side(R(lambda cfg: nodes.mut1(cfg, parts=('reclaim',))))],
     'technique': 'static analysis: relational typestate dataflow (validate-before-dereference, obsolete-before-retire), who-may-construct rule for immediate-deleter owners; the QSBR who-may-free / ordering / control-dependence rules of C05',
     'explanation': 'Structural safety conditions of "no use of reclaimed memory": LOCK-1 (no pointer obtained from a node is followed before the read section on that node is re-validated, so a stale pointer to a retired node is never dereferenced) '
                    'and LOCK-5 (every node an OLC operation hands to reclamation was unlocked-and-obsoleted by it first, so readers still holding a section on it restart; checked at restart returns too - a node retired and then abandoned by a restart is still linked), on every path of every OLC function, both key kinds; '
-                   'LOCK-6 (in the OLC instantiation an existing node is never wrapped in an owner with the immediate deleter outside the single-threaded teardown: ever-reachable nodes are freed only through QSBR); LOCK-6b (the reclaiming deleters hand exactly the node they were given, with its size, to on_next_epoch_deallocate and free nothing themselves). The second half of the property - what was retired is not freed before every reader that might hold it has quiesced - rests on the QSBR safety generators, which are therefore checked here too: Q-1,2,3,4,5,7,9,10,11,12,14,17 (see C05); and the last clause - every unlinked node is freed exactly once - on the linearity rules of C06 (Q-3, Q-6, Q-8, Q-13, Q-15/16) and on MUT-1 (reclaim part, OLC instantiation: the remove of every node class hands the unlinked leaf to the reclaiming deleter exactly once). PTR-3 the span handed out by get() reproduces the data / size of the value view; LOCK-11 no definitive result after a failed lock step.',
+                   'LOCK-6 (in the OLC instantiation an existing node is never wrapped in an owner with the immediate deleter outside the single-threaded teardown: ever-reachable nodes are freed only through QSBR); LOCK-6b (the reclaiming deleters hand exactly the node they were given, with its size, to on_next_epoch_deallocate and free nothing themselves). The second half of the property - what was retired is not freed before every reader that might hold it has quiesced - rests on the QSBR safety generators, which are therefore checked here too: Q-1,2,3,4,5,7,9,10,11,12,14,17, QS-1 (see C05); and the last clause - every unlinked node is freed exactly once - on the linearity rules of C06 (Q-3, Q-6, Q-8, Q-13, Q-15/16) and on MUT-1 (reclaim part, OLC instantiation: the remove of every node class hands the unlinked leaf to the reclaiming deleter exactly once). PTR-3 the span handed out by get() reproduces the data / size of the value view; LOCK-11 no definitive result after a failed lock step.',
     'decides': 'validate-before-dereference; obsolete-before-retire; deferred free only; the local generators of the two-epoch delay of QSBR',
     'does_not_decide': 'the global epoch invariant of QSBR under all interleavings (as C05); eventual reclamation as liveness',
 }
@@ -340,25 +340,25 @@ def stats_axis(tier):
 PROPERTIES['C05'] = {
     'level': 'other',
     'configs': stats_axis,
-    'rules': [R(qsbr.q_free_paths), R(qsbr.q_rotation), R(qsbr.q_barriers), R(lambda cfg: qsbr.q_orphans(cfg, parts=('7', '9'))), R(qsbr.q_tagging), R(qsbr.q_last_out), R(qsbr.q_register_epoch), R(qsbr.q_cas), R(qsbr.q_wrap)],
+    'rules': [R(qsbr.q_free_paths), R(qsbr.q_rotation), R(qsbr.q_barriers), R(lambda cfg: qsbr.q_orphans(cfg, parts=('7', '9'))), R(qsbr.q_tagging), R(qsbr.q_last_out), R(qsbr.q_register_epoch), R(qsbr.q_cas), R(qsbr.q_wrap), R(qstate.qs1)],
     'technique': 'static analysis: call-graph who-may-call rules for the free sink, ordering/dominance and control-dependence rules on the rotation, path-sensitive boolean dataflow for barriers and once-only orphan handling, memory-order table',
     'explanation': 'Structural safety conditions of "QSBR never frees what a registered thread may still reference", each decided on every CFG path of qsbr.hpp/qsbr.cpp (stats on/off, debug/release): '
                    'Q-1 requests reach qsbr::deallocate only through ~deferred_requests, or at once only under single-thread mode; Q-2 only the previous-interval list (and, under single-thread mode, the current one; orphans likewise) is handed to the free sink; '
                    'Q-3 in the rotation the previous list is moved out before it receives the current list; Q-4 every rotation is control-dependent on an observed epoch change; '
                    'Q-5 the release barrier precedes every announcement (path-sensitive on the leave-previous-epoch flag), the acquire fence opens orphan handling, orphans are handled exactly once before every epoch-advancing write (at most once per unregister_thread call even across CAS retries), state-word RMWs are acq_rel and loads acquire; '
-                   'Q-7 a quitting / pausing thread hands its previous-interval list to the previous orphan list and its current-interval list to the current one (crossing them ages requests one epoch too fast), every taken orphan list reaches exactly one sink; Q-9 a thread leaves the previous epoch at most once per epoch; Q-12 the epoch is advanced (change_epoch, or the advancing state update of a quitting thread) only when the observed count of threads still in the previous epoch is exactly 1; Q-11 a request joins the current-interval list only on paths where last_seen_epoch was just compared equal to the freshly read global epoch; Q-10 the single-thread-mode decision is taken on the observed old state, never on the state produced by the thread\'s own update; Q-14 / Q-14b a registering thread is counted into the previous epoch exactly when the observed count of that epoch is non-zero or no thread exists (case walk over the four sign classes of the two observed counts), and a thread that could only bump the thread count returns the new epoch; Q-17 the per-thread quiescent-state counter, whose comparison with zero decides whether the thread has already left the previous epoch, is 64 bits wide in the field and in every parameter it is handed through (a 32-bit counter wraps within minutes and the thread leaves the epoch twice).',
-    'decides': 'Q-1,2,3,4,5,7,9,10,11,12,14,17: the local generators of the two-epoch delay',
-    'does_not_decide': 'the global invariant "the epoch advances only when every registered thread has quiesced" under all interleavings of register/unregister with an epoch change; bit-level arithmetic of inc_epoch_* helpers',
+                   'Q-7 a quitting / pausing thread hands its previous-interval list to the previous orphan list and its current-interval list to the current one (crossing them ages requests one epoch too fast), every taken orphan list reaches exactly one sink; Q-9 a thread leaves the previous epoch at most once per epoch; Q-12 the epoch is advanced (change_epoch, or the advancing state update of a quitting thread) only when the observed count of threads still in the previous epoch is exactly 1; Q-11 a request joins the current-interval list only on paths where last_seen_epoch was just compared equal to the freshly read global epoch; Q-10 the single-thread-mode decision is taken on the observed old state, never on the state produced by the thread\'s own update; Q-14 / Q-14b a registering thread is counted into the previous epoch exactly when the observed count of that epoch is non-zero or no thread exists (case walk over the four sign classes of the two observed counts), and a thread that could only bump the thread count returns the new epoch; QS-1 the helpers of the packed state word compute exactly the field-wise functions the rules above rely on by NAME (getters return their field, inc / dec move the counts by one, the two epoch-advancing updates set epoch + 1 mod 4 and reset the previous-epoch count to the new thread count) for every value of the three fields - abstract interpretation in a bit-field domain; Q-17 the per-thread quiescent-state counter, whose comparison with zero decides whether the thread has already left the previous epoch, is 64 bits wide in the field and in every parameter it is handed through (a 32-bit counter wraps within minutes and the thread leaves the epoch twice).',
+    'decides': 'Q-1,2,3,4,5,7,9,10,11,12,14,17, QS-1: the local generators of the two-epoch delay',
+    'does_not_decide': 'the global invariant "the epoch advances only when every registered thread has quiesced" under all interleavings of register/unregister with an epoch change',
 }
 PROPERTIES['C06'] = {
     'level': 'other',
     'configs': stats_axis,
-    'rules': [R(lambda cfg: qsbr.q_rotation(cfg, parts=('3',))), R(qsbr.q_cas), R(lambda cfg: qsbr.q_orphans(cfg, parts=('7', '8'))), R(qsbr.q_tail_link), R(qsbr.q_register_epoch), R(qsbr.q_tagging), R(qsbr.q_sink)],
+    'rules': [R(lambda cfg: qsbr.q_rotation(cfg, parts=('3',))), R(qsbr.q_cas), R(lambda cfg: qsbr.q_orphans(cfg, parts=('7', '8'))), R(qsbr.q_tail_link), R(qsbr.q_register_epoch), R(qsbr.q_tagging), R(qsbr.q_sink), R(qstate.qs1)],
     'technique': 'static analysis: linearity (exactly-one-sink) dataflow on request containers, CAS-loop shape rule (published value recomputed from the expected value on every retry), type-level non-copyability check',
     'explanation': 'Exactly-once as linearity of the request containers: Q-3 no request list is overwritten while it may hold requests, the new requests are consumed into the current list; '
                    'Q-6 every CAS on the packed state word publishes helper(expected) recomputed after each failed attempt (no lost thread-count update), register increments and unregister decrements the count, paused follows (un)registration, '
                    'a push onto an orphan list links the node to the very head the CAS expects on every retry; Q-7 every orphan list taken by the epoch changer reaches exactly one sink (freed / published / appended on CAS failure), '
-                   'add_to_orphan_list returns only on empty input or CAS success, every exit of unregister_thread passes through orphan_pending_requests, which hands each private list to its own orphan list once; Q-8 requests are not copyable, deferred_requests neither copyable nor movable; Q-11 a new request joins the current-interval list only under last_seen_epoch == fresh epoch and is handed to advance_last_seen_epoch (which drops its argument when the epoch was already seen) only under last_seen_epoch != fresh epoch - the same field the callee tests; Q-13 a store into the next link of an orphan-list node links a private node being pushed or the tail (entered from a test that found the link null) - never a node that may have successors; Q-14 a registering thread that could only bump the thread count returns the NEW epoch (guarded by a test that a freshly read epoch differs), so the per-epoch thread bookkeeping never underflows; Q-15 the end of the pipeline really frees: qsbr::deallocate calls free_aligned on its pointer argument and deallocation_request::deallocate hands its own pointer to qsbr::deallocate, on every path; Q-16 qsbr_resume assigns every per-thread bookkeeping field the constructor initialises, with the same value (last seen epochs from register_thread(), quiescent-state counter 0) - a resumed thread with a stale counter never leaves the previous epoch, the epoch stalls and nothing is freed any more.',
+                   'add_to_orphan_list returns only on empty input or CAS success, every exit of unregister_thread passes through orphan_pending_requests, which hands each private list to its own orphan list once; Q-8 requests are not copyable, deferred_requests neither copyable nor movable; Q-11 a new request joins the current-interval list only under last_seen_epoch == fresh epoch and is handed to advance_last_seen_epoch (which drops its argument when the epoch was already seen) only under last_seen_epoch != fresh epoch - the same field the callee tests; Q-13 a store into the next link of an orphan-list node links a private node being pushed or the tail (entered from a test that found the link null) - never a node that may have successors; Q-14 a registering thread that could only bump the thread count returns the NEW epoch (guarded by a test that a freshly read epoch differs), so the per-epoch thread bookkeeping never underflows; QS-1 the state-word helpers the CAS loops publish (inc / dec of the thread count, with or without the previous-epoch count, with or without the epoch advance) move exactly their fields by exactly one (bit-field abstract interpretation, all field values); Q-15 the end of the pipeline really frees: qsbr::deallocate calls free_aligned on its pointer argument and deallocation_request::deallocate hands its own pointer to qsbr::deallocate, on every path; Q-16 qsbr_resume assigns every per-thread bookkeeping field the constructor initialises, with the same value (last seen epochs from register_thread(), quiescent-state counter 0) - a resumed thread with a stale counter never leaves the previous epoch, the epoch stalls and nothing is freed any more.',
     'decides': 'no request lost or duplicated on any path of rotation, orphaning and orphan hand-over; thread-count bookkeeping',
     'does_not_decide': 'the bound "freed no later than the third quiescent round" and getter equalities at quiescent points (schedule-dependent)',
 }
